@@ -36,7 +36,7 @@ def run(ctx):
             ("GenLzFault", dict(module="LzFault", cfg="GenLzFault.cfg", workers=1, timeout=600))]
     for v in ("no_flags_compare", "no_backward_size", "no_block_padding", "no_index_padding", "no_check_compare"):
         jobs.append(("broken:XzFault:" + v, dict(module="XzFault", cfg="MCXzFaultVar_%s.cfg" % v, workers=2, timeout=900, env=env)))
-    for v in ("no_crc", "no_usize", "no_member_size"):
+    for v in ("no_crc", "no_usize", "no_member_size", "crc_after_single_end"):
         jobs.append(("broken:LzFault:" + v, dict(module="LzFault", cfg="MCLzFaultVar_%s.cfg" % v, workers=1, timeout=600)))
     ctx.log("running %d TLC jobs" % len(jobs))
     res = run_tlc_jobs(ctx, jobs, par=5)
@@ -61,11 +61,11 @@ def run(ctx):
     for p in xp:
         bk = "%d/%s" % (p['base']['check'], ";".join(",".join(str(d) for d in st) for st in p['base']['dids']))
         fl = p['fault']
-        key = "|".join([bk, fl['kind'], str(fl['s']), str(fl['b']), fl['f'], fl['cls']])
+        key = "|".join([P.flags_key(p['flags']), bk, fl['kind'], str(fl['s']), str(fl['b']), fl['f'], fl['cls']])
         row = [p['ret'], bool(p['same'])]
         if row not in table.setdefault(key, []):
             table[key].append(row)
-        if fl['kind'] == "none":
+        if fl['kind'] == "none" and p['flags']['concat'] and not p['flags']['ignoreCheck']:
             bases.append(dict(file=p['file'], fields=p['fields']))
     ctx.log("XzFault: %d (base, field, class) entries for %d base files" % (len(table), len(bases)))
     tools = build.cli("plain")
@@ -80,11 +80,11 @@ def run(ctx):
     ltable = collections.OrderedDict(); lbases = []
     for p in lp:
         fl = p['fault']
-        key = P.lz_key(p['fmt'], p['base'], fl['kind'], fl['m'], fl['f'], fl['cls'])
+        key = P.lz_key(p['fmt'], p['base'], fl['kind'], fl['m'], fl['f'], fl['cls'], p['flags'])
         row = [p['ret'], bool(p['same'])]
         if row not in ltable.setdefault(key, []):
             ltable[key].append(row)
-        if fl['kind'] == "none":
+        if fl['kind'] == "none" and p['flags']['concat'] and not p['flags']['ignoreCheck']:
             lbases.append(dict(fmt=p['fmt'], base=p['base']))
     if len(lbases) != 7:
         raise MachineryError("expected 4 .lz + 3 .lzma base files, got %d" % len(lbases))
@@ -112,7 +112,9 @@ def run(ctx):
             cli_jobs.append((bytes.fromhex(d), bytes.fromhex(o), label, adm))
     e = dict(os.environ); e.pop("LD_PRELOAD", None)
     xzjobs = [j for j in cli_jobs]
+    xzjobs = [j for j in cli_jobs if "-single:" not in j[2]]
     n3 = P.run_cli(ctx, xzjobs, [("xz-dc", [tools["xz"], "-dc", "-qq", "-Q"])], ctx.workdir)
+    n3 += P.run_cli(ctx, [j for j in cli_jobs if "-single:" in j[2]], [("xz-dc-single-stream", [tools["xz"], "-dc", "-qq", "-Q", "--single-stream"])], ctx.workdir)
     n3 += P.run_cli(ctx, [j for j in cli_jobs if j[2].startswith("xz:")], [("xzdec", [tools["xzdec"], "-q"])], ctx.workdir)
     n3 += P.run_cli(ctx, [j for j in cli_jobs if j[2].startswith("lzma:")], [("lzmadec", [tools["lzmadec"], "-q"])], ctx.workdir)
     ctx.log("CLI: %d runs of xz -dc / xzdec / lzmadec on %d sampled mutants" % (n3, len(cli_jobs)))
